@@ -165,6 +165,11 @@ func (e *Engine) evalGhostCall(c *FnCtx, env *Env, x *ECall) (Val, bool) {
 		v, p := c.eval(env, x.Args[0]), c.eval(env, x.Args[1])
 		c.sc.Decl("filterval", "(declare-fun |filterval| (Int Int) Int)")
 		return Val{T: tMath, E: "(|filterval| " + v.E + " (s-arr " + p.E + "))"}, true
+	case "pruned":
+		// pruned(v, paths): content of a message with content v after fmutils.Prune(_, paths)
+		v, p := c.eval(env, x.Args[0]), c.eval(env, x.Args[1])
+		c.sc.Decl("pruneval", "(declare-fun |pruneval| (Int Int) Int)")
+		return Val{T: tMath, E: "(|pruneval| " + v.E + " (s-arr " + p.E + "))"}, true
 	case "emptymsg":
 		m := c.eval(env, x.Args[0])
 		c.sc.Decl("emptyval", "(declare-fun |emptyval| (Int) Int)")
@@ -241,6 +246,18 @@ func (e *Engine) evalGhostCall(c *FnCtx, env *Env, x *ECall) (Val, bool) {
 			panic(specError("lastarg(" + name + "," + k + "): no tracked call"))
 		}
 		return Val{T: t, E: c.heapGet(env.st, comp)}, true
+	case "lastheld", "lastheldW", "lastgen":
+		// lock state at the latest tracked call of the named callee
+		name := x.Args[0].(*EIdent).Name
+		mu := c.eval(env, x.Args[1])
+		if x.Fun == "lastgen" {
+			return Val{T: tMath, E: "(select " + c.heapGet(env.st, c.comp("ghost$callgen$"+name, "(Array Int Int)")) + " " + mu.E + ")"}, true
+		}
+		ls := "(select " + c.heapGet(env.st, c.comp("ghost$calllock$"+name, "(Array Int Int)")) + " " + mu.E + ")"
+		if x.Fun == "lastheldW" {
+			return Val{T: tBool, E: "(= " + ls + " (- 1))"}, true
+		}
+		return Val{T: tBool, E: "(not (= " + ls + " 0))"}, true
 	case "held", "heldW":
 		m := c.eval(env, x.Args[0])
 		if x.Fun == "heldW" {
@@ -499,6 +516,13 @@ func init() {
 		cf := Val{T: fn.Signature.Results().At(1).Type(), E: ref, Cancel: true}
 		return &Val{T: fn.Signature.Results(), Tuple: []Val{ctx, cf}}
 	}
+	ctxRoot := func(c *FnCtx, fr *Frame, st *State, fn *ssa.Function, args []Val, pos token.Pos) *Val {
+		r := c.fresh("ctx", fn.Signature.Results().At(0).Type(), st)
+		c.assume(st, "(not (= (i-tag "+r.E+") 0))")
+		return &r
+	}
+	preludeTable["context.TODO"] = ctxRoot
+	preludeTable["context.Background"] = ctxRoot
 	preludeTable["context.WithTimeout"] = func(c *FnCtx, fr *Frame, st *State, fn *ssa.Function, args []Val, pos token.Pos) *Val {
 		return preludeTable["context.WithCancel"](c, fr, st, fn, args, pos)
 	}
